@@ -250,9 +250,9 @@ func runC05(c *Check) {
 	all := concatOps(xAllOps, xAsyncGen, xGen)
 	red := pickOps(all, xReducedNames...)
 	lowerOps := pickOps(all, "$0?.x", "$0?.[$1]", "$0?.($1)", "$0?.x($1)", "$0?.x.y", "($0?.x).y", "($0?.x)($1)", "$0.x?.($1)", "$0?.x[$1]?.y", "delete $0?.x", "$0 ?? $1", "$0 ** $1", "#0 **= $0", "#0 &&= $0", "#0 ||= $0", "#0 ??= $0",
-		"{...$0}", "[...$0]", "$0(...$1)", "{x: #0} = $0", "{...#0} = $0", "[#0 = $1] = $0", "{x: #0 = $1} = $0", "{[$1]: #0} = $0", "class { static x = $0 }.x", "new (class { x = $0 }).x", "class { static [$0] = $1 }",
+		"{...$0}", "[...$0]", "$0(...$1)", "{x: #0} = $0", "{...#0} = $0", "[#0 = $1] = $0", "{x: #0 = $1} = $0", "{[$1]: #0} = $0", "class { static x = $0 }.x", "new (class { x = $0 })().x", "class { static [$0] = $1 }",
 		"class { static #p = $0; static g() { return this.#p } }.g()", "class { static { H.log($0) } }", "class { static #p = 1; static g() { return $0.#p } }.g()", "class { static #p = 1; static g() { return #p in $0 } }.g()",
-		"async () => $0", "async function() { return $0 }", "await $0", "(await $0).x", "`t${$0}u${$1}`", "$0`t${$1}u`", "new (class extends $0 {})", "$0?.x.y($1)", "new ($0?.x)", "class { static x = $0; static y = this.x }.y")
+		"async () => $0", "async function() { return $0 }", "await $0", "(await $0).x", "`t${$0}u${$1}`", "$0`t${$1}u`", "new (class extends $0 {})", "$0?.x.y($1)", "new ($0?.x)", "class { static x = $0; static y = this.x }.y", "new (class { static constructor() { return 5 } x = $0 })().x", "class { static constructor() { return $0 } static y = this.constructor() }.y")
 	sp := &xspace{}
 	sp.segs = append(sp.segs, segCtxOp(usableCtxs(), all))
 	sp.segs = append(sp.segs, segLvals(pickCtx("return", "stmt", "for-of"), all, xLvals))
